@@ -81,7 +81,7 @@ func IntValue(r *mon.Rand) int64 {
 	return int64(r.U64())
 }
 
-var sampleStrings = []string{"", "a", "aa", "kid-1", "application/cose", "text/plain", "héllo", "日本語", "x y", "a/b"}
+var sampleStrings = []string{"", "a", "aa", "kid-1", "application/cose", "text/plain", "héllo", "日本語", "x y", "a/b", "1", "-1", "4", "33", "99", "255"}
 
 // TextValue draws a valid UTF-8 string.
 func TextValue(r *mon.Rand) string {
@@ -112,6 +112,18 @@ func BytesValue(r *mon.Rand) []byte {
 // Value draws a header value of the Go-side data model (DESIGN.md section 3):
 // what a decoder can produce, plus every Go integer spelling for integers.
 func Value(r *mon.Rand, depth int) any {
+	if depth <= 1 && r.Intn(40) == 0 {
+		// a deeply nested value (well inside the CBOR library's default nesting limit of 32)
+		var v any = int64(1)
+		for d := 0; d < 6+r.Intn(15); d++ {
+			if d%3 == 2 {
+				v = map[any]any{int64(d): v}
+			} else {
+				v = []any{v}
+			}
+		}
+		return v
+	}
 	k := r.Intn(12)
 	if depth >= 4 && k >= 9 {
 		k = r.Intn(9)
@@ -192,6 +204,12 @@ func GoHeader(r *mon.Rand, o HeaderOpts, forbidIV bool) (m map[any]any, usedIV i
 	n := 0
 	if o.MaxEntries > 0 {
 		n = r.Intn(o.MaxEntries + 1)
+	}
+	if o.MaxEntries >= 30 && r.Bool() {
+		// a bucket with 24 or more parameters (the map head needs a second byte)
+		for j := 0; j < 24+r.Intn(20); j++ {
+			put(int64(200000+j*7), Value(r, 2))
+		}
 	}
 	for i := 0; i < n; i++ {
 		switch r.Intn(12) {
